@@ -8,7 +8,7 @@
 From GL Require Import Base.Order Base.Varint Base.VarintProofs Base.Cursor Base.CursorProofs
   Codec.BytesCmp Codec.BytesCmpProofs Codec.Block Codec.BlockEnc Codec.BlockProofs Codec.BlockSliceProofs
   Codec.Table Codec.TableProofs Codec.TableIterProofs Codec.IndexedIterProofs Codec.TableSliceProofs Codec.TableDamageProofs Codec.TableDamageIterProofs Codec.TableDamageStrictProofs
-  Codec.TableCheck Codec.TableCheckProofs Codec.TableWriteProofs Codec.TblCrc Gen.ConstsOkTbl.
+  Codec.TableCheck Codec.TableCheckProofs Codec.TableWriteProofs Codec.TblCrc Gen.Consts Gen.ConstsOkTbl.
 
 (* A.0  uvarint: Uvarint (PutUvarint x ++ rest) = (x, len) for every uint64 x. *)
 Theorem C13_uvarint_roundtrip : forall x rest, (x < 2 ^ 64)%N ->
@@ -248,6 +248,15 @@ Print Assumptions C13_table_roundtrip_partial.
 Theorem C13_table_constants_ok : tparams_ok tblp.
 Proof. exact tblp_ok. Qed.
 Print Assumptions C13_table_constants_ok.
+
+(* ... and the on-disk format constants (magic, block type bytes, trailer and footer length) have
+   their documented values. *)
+Theorem C13_format_constants_pinned :
+  tbl_magic = [87; 251; 128; 139; 36; 117; 71; 219]%N /\
+  tbl_blockTypeNoCompression = 0%N /\ tbl_blockTypeSnappyCompression = 1%N /\
+  tbl_blockTrailerLen = 5%N /\ tbl_footerLen = 48%N.
+Proof. exact tbl_format_pinned. Qed.
+Print Assumptions C13_format_constants_pinned.
 
 (* A.3b  block_no_panic — PARTIAL: on every block the writer produces (strictly increasing keys),
    no movement sequence ever puts the iterator into an error state: no Corrupted, no place where
